@@ -65,6 +65,9 @@ def run_job(job, w):
     from rt import harness, oracles, hookbridge
     harness.setup_process(job["K"])
     for sc in job["scenarios"]:
+        if "steps" in sc:
+            run_engine_scenario(sc, w, job)
+            continue
         flowir, script, extra = build(sc)
         policy = oracles.c12_policy(sc["wa"])
         cap = len(sc["seq"]) + 2     # launches can never exceed the script length + the implicit final success
@@ -108,6 +111,63 @@ def run_job(job, w):
                       "history": [(e["kind"], e.get("reason") or e.get("launch_error") or e.get("code"))
                                   for e in ev if e["comp"] == "stage0.Main" and
                                   e["kind"] in ("launch", "exit", "restartComponent.exit", "cs.finish")][:30]})
+
+
+def run_engine_scenario(sc, w, job):
+    """Second slice: a real Engine driven at its own API (run / restart / kill)."""
+    from rt import enginedrive, oracles
+    policy = oracles.c12_policy(sc["wa"])
+    loc = vlib.mkscratch("c12e")
+    try:
+        r = enginedrive.run_program(sc, loc, watchdog_s=job.get("watchdog_s", 90.0))
+    finally:
+        shutil.rmtree(loc, ignore_errors=True)
+    w.evaluated()
+    w.count("eng_runs")
+    if r["build_error"]:
+        w.count("build_errors")
+        w.note_inconclusive("engine-slice scenario did not load: %s" % r["build_error"])
+        return
+    viol, cnt = enginedrive.judge(sc, policy, r)
+    for k, v in cnt.items():
+        w.count(k, v)
+    w.distinct("eng|%s|%s|%s" % ("".join(e.get("reason", e.get("launch_error", "?"))[0] for e in sc["seq"]),
+                                 [(st["op"], st.get("after")) for st in sc["steps"]], sorted(sc["wa"].items())))
+    for v in viol:
+        w.violation("engine-slice %s %s" % (v["clause"], {k: v[k] for k in v if k != "clause"}),
+                    {"scenario": sc, "policy": policy, "violation": v,
+                     "trace": [{k: e[k] for k in e if k not in ("thread", "preds", "graph_preds")} for e in r["events"]
+                               if e["kind"] not in ("storm.wake", "output")][:120]}, finding_key=classify(v, sc, policy))
+
+
+def gen_engine_scenario(rng):
+    wa = {}
+    mr = rng.choice([None, None, 1, 2, 5, -1])
+    if mr is not None:
+        wa["maxRestarts"] = mr
+    on = rng.choice([None, None, ["ResourceExhausted", "KnownIssue"]])
+    if on is not None:
+        wa["restartHookOn"] = on
+    restartable = on or ["ResourceExhausted"]
+    n = rng.randint(2, 5)
+    seq = [{"reason": rng.choice(restartable + ["ResourceExhausted"]), "duration": rng.choice([4.0, 6.0])} for _ in range(n)]
+    steps = []
+    for i in range(n):
+        steps.append({"op": "wait_dead"})
+        steps.append({"op": "restart"})
+        r = rng.random()
+        if r < 0.45:
+            # kill inside the window between restart() and the delayed launch of the new task (launch at ~6 s)
+            steps.append({"op": "kill", "after": rng.choice([0.5, 1.5, 3.0, 4.0])})
+            steps.append({"op": "wait_dead"})
+            steps.append({"op": "restart"})
+        elif r < 0.65:
+            # kill well inside the run of the new task (launched at ~6 s, runs >= 4 s)
+            steps.append({"op": "kill", "after": rng.choice([7.5, 8.0])})
+            steps.append({"op": "wait_dead"})
+            steps.append({"op": "restart"})
+    return {"jobtype": rng.choice(["local", "simulator"]), "wa": wa, "seq": seq, "steps": steps,
+            "hook_file": rng.choice([None, "restart.py"]), "hook_answers": ["Possible"]}
 
 
 def classify(v, sc, policy):
@@ -195,6 +255,10 @@ def main():
         rng = vlib.rng(PROP, rnd)
         scs = [gen_scenario(rng) for _ in range(vlib.NPROC * per_child)]
         jobs = [{"K": K, "scenarios": scs[i:i + per_child]} for i in range(0, len(scs), per_child)]
+        # engine slice on a quarter of the children (K=10: the kill placement needs wider real-time margins)
+        for j in jobs[::4]:
+            j["K"] = 10.0
+            j["scenarios"] = [gen_engine_scenario(rng) for _ in range(6)]
         vlib.fanout("checks.C12", jobs, c, timeout=1500)
         rnd += 1
         if c.evaluations >= floor_runs or c.elapsed() > budget:
@@ -205,6 +269,8 @@ def main():
     c.floor("resubmissions_counted", 50)
     c.floor("refusals_followed_by_final", 30)
     c.floor("hook_calls", 20)
+    c.floor("eng_restart_calls", 30)
+    c.floor("eng_kills_in_prelaunch_window", 5)
     sys.exit(c.finish())
 
 
